@@ -110,6 +110,8 @@ def rel(fn, cond, pol=True, subst=True):
         a, b, op = b, a, "<"
     elif op == ">=":
         a, b, op = b, a, "<="
+    elif op in ("==", "!=") and b < a:
+        a, b = b, a
     return (a, op, b)
 
 
